@@ -89,8 +89,11 @@ TRDone == /\ IsEv("RDone")
           /\ mode = "restore"
           /\ LET o  == Trace[l].obs
                  s0 == Finished(r)
-                 s1 == IF s0.pc = "idle" /\ s0.todo = {} THEN [s0 EXCEPT !.pc = "restored"] ELSE s0
-             IN  /\ s1.pc \in {"failed", "restored"}
+                 s1 == IF ~Trace[l].args.opened
+                       THEN [r EXCEPT !.pc = "failed"]      \* backend.Open refused the file: Restore never ran
+                       ELSE IF s0.pc = "idle" /\ s0.todo = {} THEN [s0 EXCEPT !.pc = "restored"] ELSE s0
+             IN  /\ ~Trace[l].args.opened => (r.pc = "idle" /\ r.todo = {} /\ r.cur = "-")
+                 /\ s1.pc \in {"failed", "restored"}
                  /\ o.err = (s1.pc = "failed")
                  /\ ObsEq(o.state, s1)
                  /\ r' = s1
